@@ -450,7 +450,7 @@ def roots(p: npt.ArrayLike) -> npt.NDArray[np.number]:
     h = (g**2) / 4 + (f**3) / 27
 
     if f == 0 and g == 0 and h == 0:  # All 3 roots are real and equal
-        x = np.cbrt(d / a)
+        x = -np.cbrt(d / a)
         return np.array([x])
 
     if h <= 0:  # All 3 roots are real
